@@ -121,6 +121,36 @@ theorem outsOf_restrict (p : Peer) (ops : List Op) (t : Table) :
     · simp only [outsOf, h, if_false, List.filter, decide_false]
       rw [ih, step_restrict_other p t op h]
 
+theorem stepWire_restrict_own (p : Peer) (t : Table) (op : Op) (h : op.peer = p) :
+    stepWire (restrict p t) op = (restrict p (stepWire t op).1, (stepWire t op).2) := by
+  unfold stepWire
+  rw [step_restrict_own p t op h]
+  by_cases hf : (step t op).2 = .failed
+  · simp only [hf, if_true]
+    rw [step_restrict_own p (step t op).1 (.fin op.peer) h]
+  · simp only [hf, if_false]
+
+theorem stepWire_restrict_other (p : Peer) (t : Table) (op : Op) (h : op.peer ≠ p) :
+    restrict p (stepWire t op).1 = restrict p t := by
+  unfold stepWire
+  by_cases hf : (step t op).2 = .failed
+  · simp only [hf, if_true]
+    rw [step_restrict_other p (step t op).1 (.fin op.peer) h,
+      step_restrict_other p t op h]
+  · simp only [hf, if_false]
+    exact step_restrict_other p t op h
+
+theorem outsOfWire_restrict (p : Peer) (ops : List Op) (t : Table) :
+    outsOfWire p t ops = (runWire (restrict p t) (ops.filter (fun op => decide (op.peer = p)))).2 := by
+  induction ops generalizing t with
+  | nil => rfl
+  | cons op ops ih =>
+    by_cases h : op.peer = p
+    · simp only [outsOfWire, h, if_true, List.filter, decide_true, runWire, stepWire_restrict_own p t op h]
+      rw [ih]
+    · simp only [outsOfWire, h, if_false, List.filter, decide_false]
+      rw [ih, stepWire_restrict_other p t op h]
+
 /-- keys stay unique (the list really is a dict) -/
 def KeysNodup (t : Table) : Prop := (t.map (·.1)).Nodup
 
